@@ -1,5 +1,6 @@
 #!/bin/bash
 # benign.sh <dir-with-b*/patch.diff>...: apply each behaviour-preserving patch to /repo, run ALL checks, undo; list alarms (false alarms).
+mkdir -p /tmp/benign_verif; cp /verif/known_findings.json /verif/baseline_symbols.json /tmp/benign_verif/ 2>/dev/null
 for base in "$@"; do
 for d in $base/b*; do
   [ -f $d/patch.diff ] || continue
